@@ -20,9 +20,9 @@ BigIntCases == {Case("bigint", g, t, "big-" \o d, With(BaseV(g, 1), t, BigInt(d)
                 : g \in {"OrderedCollection", "CollectionPage", "OrderedCollectionPage", "Link"}, t \in {"totalItems", "startIndex", "width", "height"},
                   d \in {"4294967296", "9223372036854775807", "9223372036854775808", "18446744073709551615"}}
 BigIntOK == {c \in BigIntCases : c.lab.t \in Terms(Props(c.lab.g))}
-AllCases == BigIntOK \cup IriPtrCases \cup DeepCases \cup OneField(Gob) \cup UntypedOne(Gob) \cup AllTypeNames \cup Nested1 \cup Full(Gob) \cup TopLevel \cup Pairwise(PairTypes, Gob)
-ModelUniverse == IF Tier = "thorough" THEN OneField(TRUE) \cup AllTypeNames \cup Nested1 \cup Full(TRUE) \cup TopLevel
-                 ELSE {c \in OneField(TRUE) : c.lab.g \in {"Actor", "Question", "Place", "Link", "OrderedCollectionPage"}} \cup Nested1 \cup Full(TRUE) \cup TopLevel
+AllCases == BigIntOK \cup IriPtrCases \cup DeepCases \cup OneField(Gob) \cup UntypedOne(Gob) \cup AllTypeNames \cup CrossFamily \cup Nested1 \cup Full(Gob) \cup TopLevel \cup Pairwise(PairTypes, Gob)
+ModelUniverse == IF Tier = "thorough" THEN OneField(TRUE) \cup AllTypeNames \cup CrossFamily \cup Nested1 \cup Full(TRUE) \cup TopLevel
+                 ELSE {c \in OneField(TRUE) : c.lab.g \in {"Actor", "Question", "Place", "Link", "OrderedCollectionPage"}} \cup CrossFamily \cup Nested1 \cup Full(TRUE) \cup TopLevel
 GenInit == phase = "gen" /\ codec = "json" /\ orig = NilItem /\ val = NilItem
 GenNext == FALSE /\ UNCHANGED vars
 ASSUME ndJsonSerialize("rt_cases.ndjson", SetToSeq(AllCases))
